@@ -41,3 +41,15 @@ CHECKS["C20"] = {
  "text": "3600 (quick) / 100000 (thorough) generated calls of the nine helpers (start dates incl. leap days, year/month ends, mid-day starts; spans 1 h - 800 days incl. non-whole days; 6 units; all four frequencies with random active days and hours; invalid argument combinations) are checked for start, 1 h step, contiguity, length, unit and every value against the monitor's own calendar arithmetic.",
  "note": TB + "inclusive end of the frequency helpers and int(hours) length of the growth helpers are asserted as observed on the unchanged tree; timespans are given in hour/day units with exactly representable values",
 }
+CHECKS["C05"] = {
+ "level": "fault_enumeration",
+ "technique": "runtime monitoring: before/after observation with object identity and id-level graph around ModelingUpdate(changes, date), injected real failures, toggle strings",
+ "text": "For generated systems x change lists x date kinds x fault kinds (refusal before apply, refusal after apply, recomputation failure at each raising update function incl. a failure in the middle of a per-pattern dict update) the full baseline observation (identity of every value object, values, links, id-level graph) taken before the simulation must be identical after it returned or raised and after every reset of a random set/reset string; set must be reproducible. Fault kinds are enumerated, the systems and change lists are sampled.",
+ "note": TB + "system.simulation / previous_change / all_changes / previous_total_* legitimately record the simulation and are excluded (previous_total_* are checked to be the baseline totals)",
+}
+CHECKS["C06"] = {
+ "level": "exploration",
+ "technique": "runtime monitoring: differential against a twin system on which the same changes are really applied; pairing / window / rejection monitors on the ModelingUpdate object",
+ "text": "First-hour simulations (also with the date expressed in another zone) are compared slot by slot with a twin built from the same spec on which the same changes were really made; interior dates with every pattern active are checked for hours before the date; every recomputed value is checked to be paired with and twin-linked to its baseline value; dates outside the patterns' period and naive dates must be refused.",
+ "note": TB + "the library derives its modelled period from hourly ancestors outside the recomputation chain: valid-looking dates that it refuses are counted, not alarmed; change lists that supply a new hourly series are outside the no-hour-before-date claim",
+}
